@@ -6,7 +6,7 @@
    written and read back has the same edge multiset. *)
 From Coq Require Import String List Bool ZArith NArith Arith Lia Permutation.
 From GV Require Import Base.Outcome Base.AMap Model.GState Model.Creation Model.Query.
-From GV Require Import Proofs.CreationNoPanic Proofs.CreationNodes.
+From GV Require Import Proofs.CreationNoPanic Proofs.CreationMono Proofs.CreationNodes.
 Import ListNotations.
 
 (* ---- list-level facts about the name-keyed edge store ------------------------ *)
@@ -172,7 +172,7 @@ Section Rebuild.
     pose proof (proj2 (Hnames _) Hinu) as Hnu. pose proof (proj2 (Hnames _) Hinv) as Hnv.
     destruct (has_name_lookup teqb g _ Hnu) as [ui Hui]. destruct (has_name_lookup teqb g _ Hnv) as [vi Hvi].
     pose proof (add_edge_np teqb tltb teqb_spec g e Hg) as Hgood.
-    unfold add_edge in *. rewrite Hs in *.
+    rewrite <- (add_edge_mono_eq teqb tltb g e) in *. unfold add_edge_mono in *. rewrite Hs in *.
     assert (Hsl : negb (selfloops s) && teqb (eu e) (ev e) = false).
     { destruct (selfloops s) eqn:Esl; [reflexivity|]. cbn [negb andb].
       destruct (teqb (eu e) (ev e)) eqn:Et; [|reflexivity]. apply teqb_spec in Et. exfalso. exact (Hself eq_refl Et). }
